@@ -46,6 +46,44 @@ def run_cli(formulas, timeout_s=20, only=None):
     return out
 
 
+def cli_values(formulas, consts, timeout_s=20):
+    """ask cvc5 / z3 CLI for a model restricted to the given constants (name -> z3 const). returns dict or None"""
+    import re
+
+    if not consts:
+        return {}
+    text = smt2_text(formulas).replace("(check-sat)", "")
+    names = list(consts)
+    text = "(set-option :produce-models true)\n" + text + "\n(check-sat)\n(get-value (" + " ".join(f"|{n}|" if not re.match(r"^[A-Za-z_][A-Za-z0-9_]*$", n) else n for n in names) + "))\n"
+    with tempfile.NamedTemporaryFile("w", suffix=".smt2", delete=False) as f:
+        f.write(text)
+        fn = f.name
+    try:
+        for name, cmd in BACKENDS_CLI:
+            argv = [c.format(ms=int(timeout_s * 1000), s=int(timeout_s)) for c in cmd] + [fn]
+            try:
+                r = subprocess.run(argv, capture_output=True, text=True, timeout=timeout_s + 5)
+            except (subprocess.TimeoutExpired, FileNotFoundError):
+                continue
+            out = r.stdout.strip()
+            if not out.startswith("sat"):
+                continue
+            vals = {}
+            for m in re.finditer(r"\(\|?([^\s()|]+)\|?\s+(\(-\s*(\d+)\)|-?\d+|true|false)\)", out):
+                n, v = m.group(1), m.group(2)
+                if v in ("true", "false"):
+                    vals[n] = v == "true"
+                elif v.startswith("("):
+                    vals[n] = -int(m.group(3))
+                else:
+                    vals[n] = int(v)
+            if all(n in vals for n in names):
+                return vals
+    finally:
+        os.unlink(fn)
+    return None
+
+
 def check(formulas, timeout_s=20, cross=False, seed=0):
     """satisfiability of the conjunction. returns dict(answer, model, backend, time_s, cross)"""
     t0 = time.perf_counter()
